@@ -869,3 +869,12 @@ Section Handlers.
     | MOther => Done (a, c, no_out)
     end.
 End Handlers.
+
+(* a datagram = header sequence number + decoded message; every reply echoes the request's sequence number *)
+Record datagram := Dgram { d_seq : N; d_msg : msg }.
+Definition handle_datagram (burst : N -> N -> N -> N) (a : agent) (c : conn) (connected : bool) (d : datagram) (draws : list N)
+  : outcome (agent * conn * out * option N) :=
+  match handle burst a c connected (d_msg d) draws with
+  | Crash s => Crash s
+  | Done (a', c', o) => Done (a', c', o, match o_reply o with Some _ => Some (d_seq d) | None => None end)
+  end.
